@@ -134,7 +134,10 @@ def decode_performance(
         snote_ids = [n["id"] for n in snotes]
         snote_info = snotes
     else:
-        snote_info = snotes[np.isin(snotes["id"], snote_ids)]
+        # rows of the score note array in the order of snote_ids, which is the
+        # order of the rows of performance_array
+        idx_by_id = dict((nid, i) for i, nid in enumerate(snotes["id"]))
+        snote_info = snotes[[idx_by_id[nid] for nid in snote_ids]]
 
     # sort
     sort_idx = np.lexsort((snote_info["pitch"], snote_info["onset_div"]))
